@@ -125,7 +125,7 @@ func c17Judge(c *mon.Ctx, name string, dc *der.Cert, what string, list func(x *d
 	if compared > 0 {
 		c.R.Count("bases_"+what, 1)
 		c.R.Count("permutations_"+what, int64(compared))
-		c.R.Count("distinct_nontrivial", 1)
+		c.CountDistinct(append([]byte(what+":"), ob.DER...))
 	}
 }
 
